@@ -21,6 +21,7 @@ static void hook(int phase, int dtype, int jcol, double u, int usepr, int pivrow
         pivev_t *e = &lg->ev[lg->n - 1];
         if (e->jcol != jcol || e->ncand != ncand) { lg->overflow = 1; return; }
         e->pivrow = pivrow; e->usepr_out = usepr; e->info = info; e->have_exit = 1;
+        if (info != 0) { fprintf(stderr, "ZEROPIVOT col %d\n", jcol); fflush(stderr); }  /* lets check attribute a later crash */
         if (ncand > 0) { memcpy(lg->rows1 + e->off, rows, sizeof(int_t) * ncand); memcpy(lg->vals1 + (size_t)lg->elsize * e->off, vals, (size_t)lg->elsize * ncand); }
     }
 }
